@@ -1,2 +1,512 @@
-/// Called from the engine's in-repo points before the scheduling point itself.
-pub fn on_engine_site(_site: &'static str) {}
+//! C19 — the panic catcher returns results or panic text and never leaks state.
+
+use crate::driver::{PropDef, RunCtx, Tier};
+use crate::kernel::{self, Violation, chance, choose, choose_w, range};
+use std::panic::{AssertUnwindSafe, catch_unwind};
+use std::sync::Mutex;
+use std::sync::atomic::{AtomicBool, Ordering};
+use wirefilter::{
+    PanicCatcherFallbackMode, catch_panic, panic_catcher_disable, panic_catcher_enable, panic_catcher_get_backtrace, panic_catcher_set_fallback_mode,
+    panic_catcher_set_hook,
+};
+
+const FIXED: u32 = 10;
+
+pub static DEF: PropDef = PropDef {
+    id: "C19",
+    engine: "wfsim panic",
+    level: "exploration",
+    rule: "one run = 1-3 tasks (real OS threads, one baton), each executing a generated structured program of <= 7 (quick) / <= 10 (thorough) steps over {enable, disable, install hook, set fallback Continue, query backtrace, catch_panic{..} nested <= 4, panic with a unique message}, interleaved by the seeded scheduler between steps and at the in-repo points inside panic_catcher_set_hook (after flag load / take_hook / set_hook) and catch_panic (after start / after catch_unwind), followed after a barrier by the epilogue `disable; panic` on every task; all observations are compared with the ModelCatcher (DESIGN §11) and a per-run sentinel hook installed before the catcher's; non-trivial = at least one panic fired and (>= 2 tasks with a pre-emption, or a nested catch); distinct = distinct choice tapes",
+    runs_quick: 300_000,
+    runs_thorough: 8_000_000,
+    directed: FIXED,
+    env_groups: false,
+    run,
+    real: &["wirefilter::panic (catch_panic, set_hook, enable/disable, fallback mode, backtrace TLS)", "std::panic hook chain", "real OS threads with real thread-locals"],
+    stub: &["thread scheduler (cooperative baton; pre-emption only at points)", "previously installed hook (per-run sentinel recorder)"],
+    assumptions: &[
+        "FallbackMode::Abort ends the process by design and is not exercised",
+        "while some task is between take_hook and set_hook the process hook is std's default by construction: no sentinel / message-content expectation is attached to panics fired in that window",
+        "PANIC_CATCHER_HOOK_SET is reset between runs through the guarded test-only hook",
+    ],
+    required_probes: &["c19.panic_caught", "c19.panic_escaped", "c19.nested_noncatching_outer", "c19.install", "c19.query", "c19.epilogue", "c19.install_lock_contended", "c19.transparent"],
+    extra: None,
+};
+
+fn v(inv: &str, class: impl Into<String>, detail: impl Into<String>) -> Violation {
+    Violation::new(&format!("C19/{inv}"), class, detail)
+}
+
+// ------------------------------------------------------------------ global (per-run) model state
+
+#[derive(Clone, Copy, PartialEq, Eq, Debug)]
+enum HookState {
+    NotInstalled,
+    Installed,
+    InTransit,
+}
+
+struct Global {
+    installed: bool,
+    in_transit: Vec<usize>,
+    sentinel: Vec<(Option<usize>, String)>,
+    /// (task, msg, expectation): Some(true) = exactly once, Some(false) = absent, None = no expectation
+    expect: Vec<(usize, String, Option<bool>)>,
+    both_in_set_hook: bool,
+    in_set_hook: Vec<usize>,
+}
+
+static ACTIVE: AtomicBool = AtomicBool::new(false);
+static GLOBAL: Mutex<Global> = Mutex::new(Global {
+    installed: false,
+    in_transit: Vec::new(),
+    sentinel: Vec::new(),
+    expect: Vec::new(),
+    both_in_set_hook: false,
+    in_set_hook: Vec::new(),
+});
+
+fn g<R>(f: impl FnOnce(&mut Global) -> R) -> R {
+    let mut guard = match GLOBAL.lock() {
+        Ok(g) => g,
+        Err(p) => p.into_inner(),
+    };
+    f(&mut guard)
+}
+
+fn hook_state() -> HookState {
+    g(|s| {
+        if !s.in_transit.is_empty() {
+            HookState::InTransit
+        } else if s.installed {
+            HookState::Installed
+        } else {
+            HookState::NotInstalled
+        }
+    })
+}
+
+/// Called from the engine's in-repo points (before the scheduling point itself).
+pub fn on_engine_site(site: &'static str) {
+    if !ACTIVE.load(Ordering::Relaxed) {
+        return;
+    }
+    let Some(t) = kernel::current_task() else { return };
+    g(|s| match site {
+        "set_hook.after_load" => {
+            s.in_set_hook.push(t);
+            if s.in_set_hook.len() >= 2 {
+                s.both_in_set_hook = true;
+            }
+        }
+        "set_hook.after_take" => s.in_transit.push(t),
+        "set_hook.after_set" => {
+            s.in_transit.retain(|x| *x != t);
+            s.in_set_hook.retain(|x| *x != t);
+            s.installed = true;
+        }
+        _ => {}
+    });
+}
+
+// ------------------------------------------------------------------ programs
+
+#[derive(Clone, Debug)]
+enum Op {
+    Enable,
+    Disable,
+    InstallHook,
+    SetFallbackContinue,
+    QueryBacktrace,
+    Catch(Vec<Op>),
+    Panic,
+}
+
+fn render(ops: &[Op]) -> String {
+    ops.iter()
+        .map(|o| match o {
+            Op::Enable => "enable".to_string(),
+            Op::Disable => "disable".to_string(),
+            Op::InstallHook => "install".to_string(),
+            Op::SetFallbackContinue => "fallback=continue".to_string(),
+            Op::QueryBacktrace => "query".to_string(),
+            Op::Catch(b) => format!("catch{{{}}}", render(b)),
+            Op::Panic => "panic".to_string(),
+        })
+        .collect::<Vec<_>>()
+        .join("; ")
+}
+
+fn gen_ops(budget: &mut usize, depth: usize) -> Vec<Op> {
+    let mut out = Vec::new();
+    while *budget > 0 {
+        if !out.is_empty() && chance(1, 4, "prog.stop") {
+            break;
+        }
+        *budget -= 1;
+        let k = choose_w(&[4, 3, 1, 2, 1, 2, if depth < 4 { 5 } else { 0 }], "prog.op");
+        match k {
+            0 => out.push(Op::Enable),
+            1 => {
+                out.push(Op::Panic);
+                break; // anything after a panic in the same block is dead code
+            }
+            2 => out.push(Op::Disable),
+            3 => out.push(Op::InstallHook),
+            4 => out.push(Op::SetFallbackContinue),
+            5 => out.push(Op::QueryBacktrace),
+            _ => out.push(Op::Catch(gen_ops(budget, depth + 1))),
+        }
+    }
+    out
+}
+
+#[derive(Clone, Debug, PartialEq)]
+enum Last {
+    None,
+    Msg(String),
+    Unknown,
+}
+
+struct Pending {
+    msg: String,
+    frame: Option<usize>,
+    content_expected: bool,
+}
+
+struct TaskModel {
+    task: usize,
+    run: u64,
+    enabled: bool,
+    frames: Vec<bool>,
+    last: Last,
+    pending: Option<Pending>,
+    counter: u32,
+}
+
+fn depth_catching(m: &TaskModel) -> usize {
+    m.frames.iter().filter(|c| **c).count()
+}
+
+fn check_level(m: &TaskModel, wher: &str) {
+    let lvl = wirefilter::verif::panic_catcher_level();
+    let want = depth_catching(m) as u64;
+    if lvl != want {
+        kernel::fail(v("level-unbalanced", wher.to_string(), format!("task {}: nesting level is {lvl}, model says {want} ({wher})", m.task)));
+    }
+    let en = wirefilter::verif::panic_catcher_enabled();
+    if en != m.enabled {
+        kernel::fail(v("enabled-flag-differs", wher.to_string(), format!("task {}: enabled flag is {en}, model says {}", m.task, m.enabled)));
+    }
+}
+
+fn exec_ops(ops: &[Op], m: &mut TaskModel) {
+    for op in ops {
+        kernel::point("c19.op");
+        if kernel::failed() {
+            return;
+        }
+        match op {
+            Op::Enable => {
+                crate::tr!("t{}: enable", m.task);
+                panic_catcher_enable();
+                m.enabled = true;
+            }
+            Op::Disable => {
+                crate::tr!("t{}: disable", m.task);
+                panic_catcher_disable();
+                m.enabled = false;
+            }
+            Op::InstallHook => {
+                crate::tr!("t{}: install hook", m.task);
+                kernel::count("c19.install");
+                panic_catcher_set_hook();
+            }
+            Op::SetFallbackContinue => {
+                let prev = panic_catcher_set_fallback_mode(PanicCatcherFallbackMode::Continue);
+                if prev != PanicCatcherFallbackMode::Continue {
+                    kernel::fail(v("fallback-mode", "", format!("task {}: previous fallback mode {prev:?}, nothing ever set Abort", m.task)));
+                }
+            }
+            Op::QueryBacktrace => {
+                let bt = panic_catcher_get_backtrace();
+                kernel::count("c19.query");
+                crate::tr!("t{}: query backtrace -> {:?} (model {:?})", m.task, bt.as_ref().map(|s| s.lines().next().unwrap_or("").to_string()), m.last);
+                match (&m.last, bt) {
+                    (Last::None, None) | (Last::Unknown, _) => {}
+                    (Last::None, Some(t)) => kernel::fail(v(
+                        "backtrace-leaked",
+                        "",
+                        format!("task {} never recorded a panic but get_backtrace says {:?}", m.task, t.lines().next()),
+                    )),
+                    (Last::Msg(msg), Some(t)) if t.contains(msg.as_str()) => {}
+                    (Last::Msg(msg), other) => kernel::fail(v(
+                        "backtrace-wrong",
+                        "",
+                        format!("task {}: last caught panic was {msg:?}, get_backtrace says {:?}", m.task, other.map(|t| t.lines().next().unwrap_or("").to_string())),
+                    )),
+                }
+            }
+            Op::Catch(body) => {
+                let catching = m.enabled;
+                let idx = m.frames.len();
+                m.frames.push(catching);
+                if idx > 0 && !m.frames[..idx].iter().all(|c| *c) && catching {
+                    kernel::count("c19.nested_noncatching_outer");
+                }
+                crate::tr!("t{}: enter catch_panic #{idx} (catching={catching})", m.task);
+                let r = {
+                    let mm = &mut *m;
+                    catch_panic(AssertUnwindSafe(move || {
+                        exec_ops(body, mm);
+                        42u32
+                    }))
+                };
+                // reaching this line means catch_panic *returned*
+                m.frames.truncate(idx);
+                match r {
+                    Ok(val) => {
+                        crate::tr!("t{}: catch_panic #{idx} returned Ok", m.task);
+                        if val != 42 {
+                            kernel::fail(v("wrong-value", "", "catch_panic changed the closure's value"));
+                        }
+                        if let Some(p) = m.pending.take() {
+                            kernel::fail(v("panic-swallowed", "", format!("task {}: body panicked with {:?} but catch_panic returned Ok", m.task, p.msg)));
+                        }
+                    }
+                    Err(text) => {
+                        crate::tr!("t{}: catch_panic #{idx} returned Err({:?})", m.task, text.lines().next().unwrap_or(""));
+                        match m.pending.take() {
+                            None => kernel::fail(v("err-without-panic", "", format!("task {}: catch_panic returned Err({:?}) but nothing panicked", m.task, text.lines().next()))),
+                            Some(p) => {
+                                kernel::count("c19.panic_caught");
+                                if p.frame != Some(idx) {
+                                    kernel::fail(v(
+                                        "caught-at-wrong-frame",
+                                        if catching { "catching" } else { "transparent-frame-caught" },
+                                        format!("task {}: panic {:?} caught by frame #{idx} (catching={catching}); model says frame {:?}", m.task, p.msg, p.frame),
+                                    ));
+                                } else if p.content_expected && !text.contains(p.msg.as_str()) {
+                                    kernel::fail(v(
+                                        "message-missing",
+                                        "",
+                                        format!("task {}: caught panic {:?} but the error text is {:?}", m.task, p.msg, text.lines().next()),
+                                    ));
+                                }
+                            }
+                        }
+                    }
+                }
+                check_level(m, "after-catch");
+            }
+            Op::Panic => {
+                m.counter += 1;
+                let msg = format!("p{}-{}-{}", m.run, m.task, m.counter);
+                let dc = depth_catching(m);
+                let hs = hook_state();
+                let frame = m.frames.iter().rposition(|c| *c);
+                if frame.is_some() && m.frames.last() == Some(&false) {
+                    kernel::count("c19.transparent");
+                }
+                m.pending = Some(Pending {
+                    msg: msg.clone(),
+                    frame,
+                    content_expected: hs == HookState::Installed,
+                });
+                let expect = match hs {
+                    HookState::InTransit => {
+                        if dc > 0 {
+                            m.last = Last::Unknown;
+                        }
+                        None
+                    }
+                    HookState::Installed if dc > 0 => {
+                        m.last = Last::Msg(msg.clone());
+                        Some(false)
+                    }
+                    _ => Some(true),
+                };
+                if frame.is_none() {
+                    kernel::count("c19.panic_escaped");
+                }
+                let task = m.task;
+                g(|s| s.expect.push((task, msg.clone(), expect)));
+                crate::tr!("t{}: panic {msg:?} (catching frames={dc}, hook={hs:?}, sentinel expectation={expect:?})", m.task);
+                panic!("{}", msg);
+            }
+        }
+        check_level(m, "after-op");
+    }
+}
+
+fn task_body(task: usize, run: u64, prog: Vec<Op>) {
+    let mut m = TaskModel {
+        task,
+        run,
+        enabled: false,
+        frames: Vec::new(),
+        last: Last::None,
+        pending: None,
+        counter: 0,
+    };
+    let r = {
+        let mm = &mut m;
+        catch_unwind(AssertUnwindSafe(move || exec_ops(&prog, mm)))
+    };
+    m.frames.clear();
+    match r {
+        Ok(()) => {
+            if let Some(p) = m.pending.take() {
+                kernel::fail(v("panic-swallowed", "root", format!("task {task}: {:?} never surfaced", p.msg)));
+            }
+        }
+        Err(payload) => {
+            let got = kernel::panic_message(&*payload);
+            match m.pending.take() {
+                Some(p) if p.frame.is_none() && p.msg == got => {}
+                Some(p) => kernel::fail(v(
+                    "escaped-catching-frame",
+                    "",
+                    format!("task {task}: panic {:?} unwound to the task root; model says it is caught by frame {:?} (payload {got:?})", p.msg, p.frame),
+                )),
+                None => kernel::fail(v("unexpected-root-panic", crate::seams::panic_class(&got), format!("task {task}: {got}"))),
+            }
+        }
+    }
+    check_level(&m, "program-end");
+    // ---- epilogue, after every task has finished its program
+    kernel::barrier();
+    if kernel::failed() {
+        return;
+    }
+    panic_catcher_disable();
+    m.enabled = false;
+    let msg = format!("p{run}-{task}-epilogue");
+    g(|s| s.expect.push((task, msg.clone(), Some(true))));
+    kernel::count("c19.epilogue");
+    crate::tr!("t{task}: epilogue: disable; panic {msg:?} outside catch_panic");
+    let mclone = msg.clone();
+    let r = catch_unwind(AssertUnwindSafe(move || {
+        let _: () = catch_panic(AssertUnwindSafe(|| panic!("{}", mclone))).expect("disabled catch_panic must be transparent");
+    }));
+    match r {
+        Err(p) if kernel::panic_message(&*p) == msg => {}
+        Err(p) => kernel::fail(v("epilogue", "payload", format!("task {task}: epilogue panic surfaced as {:?}", kernel::panic_message(&*p)))),
+        Ok(()) => kernel::fail(v("epilogue", "swallowed", format!("task {task}: a panic with catching disabled did not unwind"))),
+    }
+    check_level(&m, "epilogue");
+}
+
+fn run(ctx: &RunCtx) -> Result<(), Violation> {
+    crate::seams::reset(ctx.run);
+    // ---- process reset: sentinel hook first, catcher "not installed"
+    let _ = std::panic::take_hook();
+    wirefilter::verif::panic_catcher_reset_hook_flag();
+    g(|s| {
+        s.installed = false;
+        s.in_transit.clear();
+        s.sentinel.clear();
+        s.expect.clear();
+        s.both_in_set_hook = false;
+        s.in_set_hook.clear();
+    });
+    std::panic::set_hook(Box::new(|info| {
+        let msg = if let Some(s) = info.payload().downcast_ref::<&str>() {
+            s.to_string()
+        } else if let Some(s) = info.payload().downcast_ref::<String>() {
+            s.clone()
+        } else {
+            "<unknown>".to_string()
+        };
+        let t = kernel::current_task();
+        g(|s| s.sentinel.push((t, msg)));
+    }));
+    ACTIVE.store(true, Ordering::SeqCst);
+
+    let scenario = choose(1 + FIXED as usize, "scenario");
+    let max_len = if ctx.tier == Tier::Thorough { 10 } else { 7 };
+    let programs: Vec<Vec<Op>> = match scenario {
+        0 => {
+            let nt = 1 + choose_w(&[3, 4, 2], "ntasks");
+            (0..nt)
+                .map(|_| {
+                    let mut budget = range(1, max_len, "prog.len");
+                    // half of the programs start from the property's precondition (hook installed, catching on)
+                    let mut ops = Vec::new();
+                    if chance(1, 2, "prog.prelude") && budget > 2 {
+                        ops.push(Op::InstallHook);
+                        ops.push(Op::Enable);
+                        budget -= 2;
+                    }
+                    ops.extend(gen_ops(&mut budget, 0));
+                    ops
+                })
+                .collect()
+        }
+        // D4: two tasks install the hook concurrently (several run indices = several schedules)
+        1..=8 => vec![vec![Op::InstallHook], vec![Op::InstallHook, Op::Enable, Op::Catch(vec![Op::Panic])]],
+        9 => vec![vec![Op::InstallHook, Op::Enable, Op::Catch(vec![Op::Catch(vec![Op::Panic]), Op::QueryBacktrace, Op::Panic]), Op::QueryBacktrace]],
+        _ => vec![vec![Op::InstallHook, Op::Enable, Op::Catch(vec![Op::Disable, Op::Catch(vec![Op::Panic])]), Op::Panic]],
+    };
+    let desc: Vec<String> = programs.iter().map(|p| render(p)).collect();
+    for (i, d) in desc.iter().enumerate() {
+        crate::tr!("program t{i}: {d}");
+    }
+    let run_id = ctx.run;
+    let fns: Vec<kernel::TaskFn> = programs
+        .iter()
+        .cloned()
+        .enumerate()
+        .map(|(i, p)| Box::new(move || task_body(i, run_id, p)) as kernel::TaskFn)
+        .collect();
+    let ntasks = fns.len();
+    let results = kernel::run_tasks(fns);
+
+    // ---- restore the process for the next run
+    ACTIVE.store(false, Ordering::SeqCst);
+    let _ = std::panic::take_hook();
+    wirefilter::verif::panic_catcher_reset_hook_flag();
+    crate::seams::install_quiet_hook();
+
+    for (i, r) in results.into_iter().enumerate() {
+        if let Err(p) = r {
+            return Err(v("task-died", crate::seams::panic_class(&p), format!("task {i} died outside its root catch_unwind: {p}")));
+        }
+    }
+    // ---- sentinel log against expectations
+    let (sentinel, expect, both) = g(|s| (s.sentinel.clone(), s.expect.clone(), s.both_in_set_hook));
+    if both {
+        kernel::count("c19.preempt_in_set_hook");
+    }
+    let mut fired = 0;
+    for (task, msg, e) in &expect {
+        fired += 1;
+        let n = sentinel.iter().filter(|(t, m)| *t == Some(*task) && m == msg).count();
+        let elsewhere = sentinel.iter().filter(|(t, m)| *t != Some(*task) && m == msg).count();
+        if elsewhere > 0 {
+            kernel::fail(v("sentinel-wrong-thread", "", format!("panic {msg:?} of task {task} was reported on another thread")));
+        }
+        match e {
+            Some(true) if n != 1 => kernel::fail(v(
+                "sentinel-missed",
+                if msg.ends_with("epilogue") { "epilogue" } else { "outside-catch" },
+                format!("panic {msg:?} (task {task}) outside any catching frame must reach the previously installed hook exactly once; seen {n} times"),
+            )),
+            Some(false) if n != 0 => kernel::fail(v("sentinel-saw-caught-panic", "", format!("caught panic {msg:?} (task {task}) was forwarded to the previous hook {n} times"))),
+            _ => {}
+        }
+    }
+    for (t, m) in &sentinel {
+        if !expect.iter().any(|(_, msg, _)| msg == m) {
+            kernel::fail(v("sentinel-unexpected", crate::seams::panic_class(m), format!("sentinel saw an unexpected panic {m:?} on task {t:?}")));
+        }
+    }
+    let nested = desc.iter().any(|d| d.contains("catch{") && d[d.find("catch{").unwrap() + 6..].contains("catch{"));
+    if fired > ntasks && ((ntasks >= 2 && kernel::counter("c19.install") + kernel::counter("c19.panic_caught") > 0) || nested) {
+        kernel::set_nontrivial();
+    }
+    if ctx.want_sample {
+        kernel::set_sample(|| serde_json::json!({"kind": "catcher-programs", "programs": desc, "sentinel_log": sentinel.iter().map(|(t, m)| format!("t{t:?}:{m}")).collect::<Vec<_>>() }));
+    }
+    Ok(())
+}
